@@ -1409,7 +1409,7 @@ func scrub(n *Node, g *gen, r *run.Rand) {
 // the pinned list): lone quotes, stray braces, deep nesting, long templates.
 func shapeCases(c *run.Ctx) []*Case {
 	ctx := mkCtx([]string{"a\x00b", "1", "x"}, map[string]string{"name": "v"})
-	deep := c.N(700, 2000)
+	deep := c.Pick(700, 2000) // nesting depth: a bound, not a count (templates stay below 64 KiB)
 	var out []*Case
 	add := func(t string) { out = append(out, newCase("shape", t, ctx, mkCtx(nil, nil))) }
 	for _, t := range []string{`"`, `{"}`, `{coalesce "}`, `{coalesce "a}`, `{`, `}`, `}{`, `{}`, `{ }`, `{{}}`, `{{`, `}}`, `{0`, `0}`, `{ 0 }`, `{"0"}`, `{""}`, `{"" ""}`,
